@@ -379,8 +379,35 @@ func scaling(c *simkit.Choices, x *simkit.Ctx, cd *common.Codec, f model.Format)
 
 // truncation: every strict prefix of a valid stream that ends inside a value
 // must be reported as an error by the entry points that know the end.
+// foreignCBOR are complete, well-formed RFC 8949 data items that use features
+// outside the library's subset (tags, half floats, simple values, indefinite
+// strings). Whether the library accepts or refuses them is not this engine's
+// business - but an input that ENDS inside one of them ends inside a value.
+var foreignCBOR = [][]byte{
+	{0xc0, 0x61, 'a'}, {0xc1, 0x01}, {0xd8, 0x20, 0x61, 'u'}, {0xd9, 0xd9, 0xf7, 0x81, 0x00},
+	{0xda, 0x00, 0x01, 0x00, 0x00, 0x01}, {0xdb, 0, 0, 0, 1, 0, 0, 0, 0, 0x01}, {0xc2, 0x42, 0x01, 0x00}, {0xc1, 0xc2, 0x41, 0x00},
+	{0xd8, 0x18, 0x43, 0x82, 0x01, 0x02}, {0xc0, 0x81, 0xc1, 0x00},
+	{0xf9, 0x3c, 0x00}, {0xf9, 0x80, 0x00}, {0xf9, 0x7e, 0x00}, {0xf8, 0x20}, {0xf8, 0xff},
+	{0x5f, 0x41, 0x00, 0xff}, {0x7f, 0x61, 'a', 0x61, 'b', 0xff}, {0x9f, 0xc0, 0x01, 0xff}, {0xa1, 0x61, 'k', 0xc0, 0x01},
+}
+
+func appendForeignCBOR(c *simkit.Choices, doc *model.Doc) *model.Doc {
+	out := &model.Doc{Format: doc.Format, Bytes: append([]byte{}, doc.Bytes...), Values: append([][2]int{}, doc.Values...),
+		OpenEnd: append([]bool{}, doc.OpenEnd...)}
+	item := foreignCBOR[c.N(len(foreignCBOR))]
+	s := len(out.Bytes)
+	out.Bytes = append(out.Bytes, item...)
+	out.Values = append(out.Values, [2]int{s, len(out.Bytes)})
+	out.OpenEnd = append(out.OpenEnd, false)
+	return out
+}
+
 func truncation(c *simkit.Choices, x *simkit.Ctx, cd *common.Codec, f model.Format, doc *model.Doc) *simkit.Violation {
 	st := x.Stats
+	if f == model.CBOR && c.N(2) == 0 {
+		doc = appendForeignCBOR(c, doc)
+		st.Probe("foreign-cbor-item-appended")
+	}
 	var cands []int
 	inside := map[int]int{}
 	for j, sp := range doc.Values {
